@@ -675,9 +675,9 @@ func (h *holeR) cond(v ssa.Value) Atom {
 	case *ssa.BinOp:
 		switch x.Op {
 		case token.EQL:
-			return Atom{EQ, h.cmpLin(x.X).add(h.cmpLin(x.Y), -1)}.norm()
+			return Atom{Kind: EQ, L: h.cmpLin(x.X).add(h.cmpLin(x.Y), -1)}.norm()
 		case token.NEQ:
-			return Atom{NE, h.cmpLin(x.X).add(h.cmpLin(x.Y), -1)}.norm()
+			return Atom{Kind: NE, L: h.cmpLin(x.X).add(h.cmpLin(x.Y), -1)}.norm()
 		}
 		if isIntegral(x.X.Type()) {
 			a, b := h.lin(x.X, 0), h.lin(x.Y, 0)
@@ -685,19 +685,19 @@ func (h *holeR) cond(v ssa.Value) Atom {
 			case token.LSS:
 				l := a.add(b, -1)
 				l.K++
-				return Atom{LE, l}
+				return Atom{Kind: LE, L: l}
 			case token.LEQ:
-				return Atom{LE, a.add(b, -1)}
+				return Atom{Kind: LE, L: a.add(b, -1)}
 			case token.GTR:
 				l := b.add(a, -1)
 				l.K++
-				return Atom{LE, l}
+				return Atom{Kind: LE, L: l}
 			case token.GEQ:
-				return Atom{LE, b.add(a, -1)}
+				return Atom{Kind: LE, L: b.add(a, -1)}
 			}
 		}
 	}
-	return Atom{TRUE, Lin{Coef: map[string]int64{h.term(v): 1}}}
+	return Atom{Kind: TRUE, L: Lin{Coef: map[string]int64{h.term(v): 1}}}
 }
 
 // xMatchIf: does the If test spec, reading hole names for the values that
@@ -1201,7 +1201,7 @@ func (p *Prog) XGreater(x ssa.Value, y string) (Atom, error) {
 	}
 	l := r.add(Linearize(x), -1)
 	l.K++
-	return Atom{LE, l}, nil
+	return Atom{Kind: LE, L: l}, nil
 }
 
 // XRetFrom: the i-th result of every selected return derives from a value satisfying pred.
